@@ -148,10 +148,52 @@ func c06(c *Ctx) (*report.Result, error) {
 			_, fld, ok := flow.FieldLoadOf(cc.Value)
 			return ok && fld == rl.send
 		})
+		// a method of the forwarder that wraps the Send (one Send on the same field, of one of its parameters, result
+		// returned) stands for it
+		wrapArg := -1
+		if len(sends) == 0 {
+			for _, call := range flow.Calls(f) {
+				sc := flow.StaticCallee(call.Common())
+				if _, isCall := call.(*ssa.Call); !isCall || sc == nil || sc.Signature.Recv() == nil || len(sc.Blocks) == 0 || len(call.Common().Args) == 0 || flow.Strip(flow.ResolveLoad(call.Common().Args[0])) != ssa.Value(f.Params[0]) {
+					continue
+				}
+				inner := flow.FindCalls(sc, func(cc *ssa.CallCommon) bool {
+					if !cc.IsInvoke() || cc.Method.Name() != "Send" {
+						return false
+					}
+					base, fld, ok := flow.FieldLoadOf(cc.Value)
+					return ok && fld == rl.send && flow.Strip(flow.ResolveLoad(base)) == ssa.Value(sc.Params[0])
+				})
+				if len(inner) != 1 {
+					continue
+				}
+				k := -1
+				for i, p := range sc.Params {
+					if flow.Strip(flow.ResolveLoad(inner[0].Common().Args[0])) == ssa.Value(p) {
+						k = i
+					}
+				}
+				okRet := k > 0
+				for _, b := range sc.Blocks {
+					if ret, isR := b.Instrs[len(b.Instrs)-1].(*ssa.Return); isR && b != sc.Recover {
+						if len(ret.Results) != 1 || flow.Ret(ret)[0] != ssa.Value(inner[0].(*ssa.Call)) {
+							okRet = false
+						}
+					}
+				}
+				if okRet {
+					sends = append(sends, call)
+					wrapArg = k
+				}
+			}
+		}
 		if len(sends) != 1 {
 			res.Undec("O6.3", name+": Send on "+rl.send, fnPos(c.Prog, f), fmt.Sprintf("%d Send calls", len(sends)))
 		} else {
 			arg := sends[0].Common().Args[0]
+			if wrapArg >= 0 {
+				arg = sends[0].Common().Args[wrapArg]
+			}
 			okID := dataRecv != nil && derivesByFieldVal(arg, dataRecv)
 			res.Check(okID, "O6.3", name+": the message sent is the message received", instrPos(c.Prog, sends[0]), "Send(v.val) of the value taken from the listener channel", "the value passed to Send is not the value received from the other side")
 			// no store through the message between receive and send: no Store whose address derives from the message
@@ -424,6 +466,8 @@ func c06(c *Ctx) (*report.Result, error) {
 	checkClientRecvLimit(c, res, "O6.14")
 	res.RuleDoc["O6.15"] = "the translating stream wrapper never withholds a message: every path of streamTranslator.SendMsg / RecvMsg reaches the underlying ServerStream's method (a translator's error is logged, the message is relayed as it is)"
 	checkStreamTranslatorForwards(c, res, "O6.15")
+	res.RuleDoc["O6.17"] = "a forwarder's workers wait only on things that end with their own stream: every blocking channel operation in admin_stream_transfer.go (and in the forwarder methods its workers call) is a select with an arm on the stream's latch, a context's Done() or a timer, a bare receive from such a channel, or a bare send on a one-shot buffered channel made in the enclosing function - a wait on anything else (a process-wide semaphore) parks the worker beyond the reach of the latch, so the two directions no longer end together, and couples unrelated streams"
+	checkForwarderWaits(c, res, "O6.17", 6)
 	res.RuleDoc["O6.16"] = "the forwarder's workers do not panic on their metrics: every WithLabelValues call in package proxy that spreads a label slice field agrees with its siblings on that slice's length (same analysis as O20.12) - a panic in forwardReplicationMessages / forwardAck is not captured and ends every relay of the process"
 	checkMetricLabelSpread(c, res, "O6.16", []string{"proxy/"}, 8)
 	res.RuleDoc["O6.12"] = "the forwarder's worker bookkeeping is consistent (same analysis as O8.15): Add equals the number of goroutines started with the WaitGroup, each calls Done from an entry-block defer, none runs synchronously and Run does not return before Wait - otherwise the handler never returns or returns under running relays"
